@@ -264,4 +264,25 @@ Qed.
 Definition key (s : tstate) (i : Z) : Z :=
   match sget s i with Some t => texp s t | None => 0 end.
 
+(* ---------- extensionality over the two maps ---------- *)
+Lemma sget_pos : forall s p, sget s (Zpos p) = PM.find p (slots s).
+Proof. reflexivity. Qed.
+Lemma sget_ext : forall s s' i, slots s' = slots s -> sget s' i = sget s i.
+Proof. intros s s' i H; unfold sget; rewrite H; reflexivity. Qed.
+Lemma tget_ext : forall s s' t, tm s' = tm s -> tget s' t = tget s t.
+Proof. intros s s' t H; unfold tget; rewrite H; reflexivity. Qed.
+Lemma tidx_ext : forall s s' t, tm s' = tm s -> tidx s' t = tidx s t.
+Proof. intros s s' t H; unfold tidx; rewrite (tget_ext s s' t H); reflexivity. Qed.
+Lemma texp_ext : forall s s' t, tm s' = tm s -> texp s' t = texp s t.
+Proof. intros s s' t H; unfold texp; rewrite (tget_ext s s' t H); reflexivity. Qed.
+Lemma tm_sset : forall s i v, tm (sset s i v) = tm s.
+Proof. intros; apply sset_fields. Qed.
+Lemma slots_set_idx : forall s t i, slots (set_idx s t i) = slots s.
+Proof. intros; apply set_idx_fields. Qed.
+Lemma slots_set_exp : forall s t e, slots (set_exp s t e) = slots s.
+Proof. intros; apply set_exp_fields. Qed.
+
+Lemma log2_fuel_gt : forall i, Z.log2 i < Z.of_nat (log2_fuel i).
+Proof. intros i. unfold log2_fuel. pose proof (Z.log2_nonneg i). lia. Qed.
+
 Global Opaque sget sset tget set_idx set_exp get_node remove_level cap.
